@@ -430,6 +430,12 @@ func genPipe(r *Rng, tier string, profile string) *pipeCase {
 		if c.nch > 1 && r.Chance(40) && !onlyEMT {
 			c.ops = append(c.ops, pipeOp{kind: "T", chans: []int{r.Intn(c.nch)}, ts: genTS(r, c.nsamp, allowEMT, false)})
 		}
+		if r.Chance(8) { // a request with a channel index outside [0, nch): must be refused and change nothing
+			bad := append(allChans(), r.Pick(-1, c.nch, c.nch+3, -7))
+			k := r.Intn(len(bad)) // the offending index at a random position
+			bad[k], bad[len(bad)-1] = bad[len(bad)-1], bad[k]
+			c.ops = append(c.ops, pipeOp{kind: "T", chans: bad, ts: genTS(r, c.nsamp, allowEMT, false)})
+		}
 	}
 	if profile == "C01" && c.nch > 1 && r.Chance(50) {
 		np := r.Range(1, 3)
